@@ -118,13 +118,15 @@ KINDS = {
     "bool": ("bool", "bool"),
     "pair": ("struct Pair", "Pair"),
     "slice": ("struct CSliceRef_u8", "CSliceRef<uint8_t>"),
+    # a generic type with TWO arguments: in C++ its spelling contains a comma inside the angle brackets
+    "tup": ("struct CTup2_u32__u64", "CTup2<uint32_t, uint64_t>"),
     "cb": ("PairCallback", "PairCallback"),
     "ptr": ("const struct Pair *", "const Pair *"),
     "vptr": ("void *", "void *"),
     "mptr": ("uint8_t *", "uint8_t *"),
 }
-ARG_KINDS = ["u8", "u32", "usize", "i64", "f64", "bool", "pair", "slice", "cb", "ptr", "vptr", "mptr"]
-RET_KINDS = ["void", "u8", "u32", "usize", "i64", "f64", "bool", "pair", "slice", "ptr", "vptr", "self"]
+ARG_KINDS = ["u8", "u32", "usize", "i64", "f64", "bool", "pair", "slice", "cb", "ptr", "vptr", "mptr", "tup"]
+RET_KINDS = ["void", "u8", "u32", "usize", "i64", "f64", "bool", "pair", "slice", "ptr", "vptr", "self", "tup"]
 
 
 def sep(generic):
@@ -194,6 +196,7 @@ def render_c_meta(api):
     uses_none = any(o_["ctx"] == "None" for o_ in api["objects"]) or any(v[1] == "None" for g in api["groups"] for v in g["variants"])
     blocks.append((True, "typedef struct Pair {\n    uint32_t a;\n    uint64_t b;\n} Pair;\n"))
     blocks.append((True, "typedef struct CSliceRef_u8 {\n    const uint8_t *data;\n    uintptr_t len;\n} CSliceRef_u8;\n"))
+    blocks.append((True, "typedef struct CTup2_u32__u64 {\n    uint32_t a;\n    uint64_t b;\n} CTup2_u32__u64;\n"))
     blocks.append((False, "typedef struct Callback_c_void__Pair {\n    void *context;\n    bool (*func)(void*, struct Pair);\n} Callback_c_void__Pair;\n"))
     blocks.append((True, "typedef struct Callback_c_void__Pair OpaqueCallback_Pair;\n"))
     blocks.append((True, "typedef OpaqueCallback_Pair PairCallback;\n"))
@@ -325,6 +328,7 @@ def render_cpp(api):
     b.append(CARC_DOC + "template<typename T>\nstruct CArc {\n    const T *instance;\n    const T *(*clone_fn)(const T*);\n    void (*drop_fn)(const T*);\n};\n")
     b.append(CBOX_DOC + "template<typename T>\nstruct CBox {\n    T *instance;\n    void (*drop_fn)(T*);\n};\n")
     b.append("template<typename T>\nstruct CSliceRef {\n    const T *data;\n    uintptr_t len;\n};\n")
+    b.append("template<typename A, typename B>\nstruct CTup2 {\n    A a;\n    B b;\n};\n")
     b.append("template<typename T, typename F>\nstruct Callback {\n    T *context;\n    bool (*func)(T*, F);\n};\n")
     b.append("template<typename T>\nusing OpaqueCallback = Callback<void, T>;\n")
     b.append("using PairCallback = OpaqueCallback<Pair>;\n")
